@@ -77,6 +77,8 @@ def synthetic(rng):
         "towers": towers, "met": met, "solver": {"closure": str(rng.choice(["MOST", "MOSTM", "CONSTANT"]))},
     })
     x, y = np.arange(nx) * dx, np.arange(ny) * dy
+    lorder = str(rng.choice(["ascending", "ascending", "descending", "shuffled"]))
+    lperm = rng.permutation(nl)
     results = {}
     for ti, tw in enumerate(cfg.towers):
         lst = []
@@ -85,6 +87,10 @@ def synthetic(rng):
                 zl = np.sort(rng.uniform(0.1, 10, nl)) if (hetero and (ti, t) != (0, 0)) else np.linspace(0.5, 4.0, nl)
                 if hetero and (ti, t) == (0, 0):
                     zl = np.linspace(0.5, 4.0, nl)
+                if lorder == "descending":      # output levels requested top-down / in any order: heights come in that order
+                    zl = zl[::-1].copy()
+                elif lorder == "shuffled":
+                    zl = zl[lperm]
                 Z, Y, X = np.meshgrid(zl, y, x, indexing="ij")
                 shape = (nl, ny, nx)
             else:
@@ -116,7 +122,7 @@ def synthetic(rng):
                         "timestamp": st["timestamp"], "params": st})
         results[tw.name] = lst
     desc = dict(towers=nt, steps=ns, dims=3 if three else 2, levels=nl, grid=(ny, nx), values=vclass, timestamps=tskind, forcing=forcing,
-                heights_heterogeneous=hetero, names=names)
+                heights_heterogeneous=hetero, names=names, level_order=lorder if three else "-")
     return cfg, results, desc
 
 
@@ -138,7 +144,7 @@ def from_solver(rng):
         met["z0"] = 0.08
     dom = {"nx": 12, "ny": 10, "xmax": 120.0, "ymax": 80.0, "nz": 6, "modes": [12, 10], "halo": 0.0, "ref_lat": 50.0, "ref_lon": 11.0}
     if three:
-        dom["output_levels"] = [1, 3, 6]
+        dom["output_levels"] = [[1, 3, 6], [6, 3, 1], [3, 6, 1], [6, 1, 3]][int(rng.integers(4))]
     prec = str(rng.choice(["single", "double"]))
     cfg = parse_config_dict({"domain": dom, "towers": towers, "met": met,
                              "solver": {"closure": "MOST", "footprint": True, "precision": prec}})
@@ -170,7 +176,7 @@ def run_case(case):
     def bad(what, **d):
         viol.append(dict(what=what, **d, set=desc))
 
-    path = os.path.abspath(f"c18_{case['source']}_{case['idx']}.nc")
+    path = case.get("_path") or os.path.abspath(f"c18_{case['source']}_{case['idx']}.nc")
     try:
         save_footprints_to_netcdf(results, cfg, path)
         ds = load_footprints_from_netcdf(path)
@@ -240,6 +246,8 @@ def run_case(case):
                             bad("met_value_changed_or_misattached", var=var, step=t, got=got, expected=float(exp))
         if ds.attrs.get("closure") != cfg.solver.closure or float(ds.attrs.get("domain_xmax")) != cfg.domain.xmax or float(ds.attrs.get("domain_ymax")) != cfg.domain.ymax:
             bad("global_attributes_changed", attrs=dict(ds.attrs))
+    except (KeyError, IndexError, ValueError) as e:  # a label, variable or dimension the saved set has is missing from what was loaded
+        bad("loaded_dataset_lacks_labels_of_the_saved_set", exc=f"{type(e).__name__}: {str(e)[:200]}")
     finally:
         ds.close()
         try:
@@ -247,6 +255,16 @@ def run_case(case):
         except OSError:
             pass
     nsl = desc["towers"] * desc["steps"] * desc["levels"]
+    if case["idx"] % 3 == 0 and not case.get("_second"):
+        # the same file name used again at once for another result set (a script that overwrites its output): the second
+        # round trip must return the second set
+        r2 = run_case(dict(case, idx=case["idx"] + 100000, _second=True, _path=path))
+        for v in r2.get("violations", []):
+            v["history"] = "second result set written to the path of the first within the same process"
+        viol.extend(r2.get("violations", []))
+        for k_, v_ in r2.get("counters", {}).items():
+            counters[k_] = counters.get(k_, 0) + v_
+        counters["path_reused"] = counters.get("path_reused", 0) + 1
     b = {f"towers:{desc['towers']}": 1, f"steps:{desc['steps']}": 1, f"dims:{desc['dims']}": 1, f"values:{desc['values']}": 1,
          f"ts:{desc['timestamps']}": 1, f"forcing:{desc['forcing']}": 1, f"source:{case['source']}": 1,
          f"heights:{'heterogeneous' if desc['heights_heterogeneous'] else 'homogeneous'}": 1}
